@@ -34,7 +34,7 @@ func init() {
 	})
 	property(&Property{
 		ID:          "C05",
-		Rules:       []string{"STATUS-TABLE", "TABLE-GUARD", "TWIRP-TABLE", "ENCODER-CLOSE", "TAIL-FLUSH", "PANIC-REACH-SERVE", "ERR-SAME-STATUS", "GRPC-TRAILER-VALUES", "ESCAPE-SET", "CODEC-LOOKUP-TOTAL", "POOL-RESET", "FWD-ERR-IDENTITY", "STATUS-BLOCK"},
+		Rules:       []string{"STATUS-TABLE", "TABLE-GUARD", "TWIRP-TABLE", "ENCODER-CLOSE", "TAIL-FLUSH", "PANIC-REACH-SERVE", "ERR-SAME-STATUS", "GRPC-TRAILER-VALUES", "ESCAPE-SET", "CODEC-LOOKUP-TOTAL", "POOL-RESET", "FWD-ERR-IDENTITY", "STATUS-BLOCK", "WEB-FLUSH-COMMITS"},
 		Decides:     "Decides the table-shaped and pairing-shaped parts of status fidelity: status tables equal the documented mapping and their guards are exact; the Twirp name table equals the Twirp spec; the base64 stream of gRPC-web-text is terminated; the grpc-message encoder writes its tail; the error encoders contain no reachable panic; code, message and details come from one status value derived from the handler's error and reach the gRPC trailers through the right encoders. Also: a pooled buffer that becomes the gRPC-web trailer frame is Reset after Get. Also: the proxy's error filter sets aside only nil / io.EOF / context.Canceled by identity (a Canceled *status* of the backend is relayed). Also: the gRPC status is written after the headers were flushed on every path, or else nothing is placed in a later block than the status.",
 		NotDecided:  "encodeGrpcMessage's per-character output beyond 'no input byte is skipped', WebSocket close-frame payload limits, equality of details.",
 		Assumptions: commonAssumptions,
@@ -55,8 +55,8 @@ func init() {
 	})
 	property(&Property{
 		ID:          "C08",
-		Rules:       []string{"LIMIT-SRC", "LIMIT-STRICT", "LIMIT-IMPL", "LIMIT-DEFAULTS", "SIGNCONV", "OPTS-RO", "COMPRESS-FLAG", "POOL-RESET", "LIMIT-RETURN-BOUND"},
-		Decides:     "Decides that every way request bytes enter memory on a request-reachable path is bounded by the configured receive limit before use on every protocol (including after decompression and on WebSocket), that refusing comparisons are strict (a message exactly at the limit is accepted), that every in-repo stream codec honours its limit, that wire lengths cannot wrap through a sign-changing conversion, and that the limit in force is the configured one. Also: a LimitReader in front of a length check lets limit+1 bytes through; the gRPC send limit is compared with the encoded, not the compressed size. Also: a StreamCodec reports no length above the limit next to an error either. Also: stale bytes of a pooled (de)compression buffer cannot count against the limit (Reset after Get, or Reset before every Put). Also: the length an in-repo ReadNext returns is bounded by the limit as a value (the compared counter is not advanced between the comparison and the return).",
+		Rules:       []string{"LIMIT-SRC", "LIMIT-STRICT", "LIMIT-IMPL", "LIMIT-DEFAULTS", "SIGNCONV", "OPTS-RO", "COMPRESS-FLAG", "POOL-RESET", "LIMIT-RETURN-BOUND", "LIMIT-DIRECTION"},
+		Decides:     "Decides that every way request bytes enter memory on a request-reachable path is bounded by the configured receive limit before use on every protocol (including after decompression and on WebSocket), that refusing comparisons are strict (a message exactly at the limit is accepted), that every in-repo stream codec honours its limit, that wire lengths cannot wrap through a sign-changing conversion, and that the limit in force is the configured one. Also: a LimitReader in front of a length check lets limit+1 bytes through; the gRPC send limit is compared with the encoded, not the compressed size. Also: a StreamCodec reports no length above the limit next to an error either. Also: stale bytes of a pooled (de)compression buffer cannot count against the limit (Reset after Get, or Reset before every Put). Also: the length an in-repo ReadNext returns is bounded by the limit as a value (the compared counter is not advanced between the comparison and the return). Also: refusals on send paths use the send limit and refusals on receive paths the receive limit.",
 		NotDecided:  "numeric boundary behaviour of library readers, memory use, user-supplied StreamCodecs.",
 		Assumptions: commonAssumptions,
 	})
@@ -97,8 +97,8 @@ func init() {
 	})
 	property(&Property{
 		ID:          "C14",
-		Rules:       []string{"MD-GATE-OUT", "MD-GATE-IN", "MD-RESERVED-TABLE", "BIN-PADDING", "IDENT-BRANCH", "TRAILER-PHASE", "STS-ROUTING", "WEB-TRAILER-FRAME", "MD-OWNED", "SENDHEADER-WRITES", "STATUS-BLOCK"},
-		Decides:     "Decides that every conversion between headers and metadata, in either direction, filters reserved keys and transforms '-bin' values, lower-cases keys and keeps all values; that the reserved set covers every key the transport itself writes on a response; that both base64 padding variants are accepted; that trailer-phase header writes can reach the wire; and that the ServerTransportStream wrapper routes header/trailer calls to the stream. Also: accumulated header/trailer metadata is never the handler's own map; the reserved test sees the key in the table's case. Also: header/trailer metadata given in successive calls accumulates per key (Join/append, never MD.Set); the reserved request keys are an enumerated list. Also: SendHeader itself passes the header metadata to the outgoing gate. Also: header metadata is never written into a Trailers-Only block.",
+		Rules:       []string{"MD-GATE-OUT", "MD-GATE-IN", "MD-RESERVED-TABLE", "BIN-PADDING", "IDENT-BRANCH", "TRAILER-PHASE", "STS-ROUTING", "WEB-TRAILER-FRAME", "MD-OWNED", "SENDHEADER-WRITES", "STATUS-BLOCK", "HEADER-MD-ON-FAILURE", "WEB-FLUSH-COMMITS"},
+		Decides:     "Decides that every conversion between headers and metadata, in either direction, filters reserved keys and transforms '-bin' values, lower-cases keys and keeps all values; that the reserved set covers every key the transport itself writes on a response; that both base64 padding variants are accepted; that trailer-phase header writes can reach the wire; and that the ServerTransportStream wrapper routes header/trailer calls to the stream. Also: accumulated header/trailer metadata is never the handler's own map; the reserved test sees the key in the table's case. Also: header/trailer metadata given in successive calls accumulates per key (Join/append, never MD.Set); the reserved request keys are an enumerated list. Also: SendHeader itself passes the header metadata to the outgoing gate. Also: header metadata is never written into a Trailers-Only block. Also: on HTTP transcoding a failing RPC still delivers the header metadata set before the failure; the outgoing reserved test folds the key's case. Also: the gRPC-Web writer records the headers on every way they can go out (Write, WriteHeader, Flush), so status and trailers of an RPC without replies end up in the trailer frame.",
 		NotDecided:  "byte-exactness for arbitrary values, HTTP/2 header canonicalisation, WebSocket metadata.",
 		Assumptions: commonAssumptions,
 	})
